@@ -138,6 +138,7 @@ func streamCase(c *mon.Case, bf *bufs, s spec, unit, n int, kind string, hi bool
 	c.Class("stream/%s/%s/%s/%s/t%d/%s/%s", s.mode, s.dir, kind, lenClass(n), n%16, ivk, side(hi))
 	c.Event("bytes", n)
 	p := bf.place(m, hi)
+	c.Detail("chunk_sizes_of_the_history", fmt.Sprint(clipChunks(chunks)))
 	for _, path := range s.paths() {
 		f := construct(c, bf, s, path, p, m)
 		if f == nil {
@@ -167,25 +168,8 @@ func streamCase(c *mon.Case, bf *bufs, s spec, unit, n int, kind string, hi bool
 			if !inPlace && !bytes.Equal(src, data[off:off+k]) {
 				c.Fail("mismatch", "%s: the call modified src although dst is a separate buffer", what)
 			}
-			c.Event("compare/"+path, 1)
-			if !bytes.Equal(dst[:k], want[off:off+k]) {
-				d := 0
-				for d < k && dst[d] == want[off+d] {
-					d++
-				}
-				c.Detail("key", m.key)
-				c.Detail("key2", m.key2)
-				c.Detail("iv_or_tweak", m.iv)
-				if m.useSector {
-					c.Detail("sector", m.sector)
-				}
-				c.Detail("chunks", fmt.Sprint(chunks))
-				c.Detail("data", data)
-				c.Detail("got_chunk", dst[:k])
-				c.Detail("want_chunk", want[off:off+k])
-				c.Fail("mismatch", "%s: after the calls %v on one %s object the output differs from the one-call definition at absolute byte %d (chunk sizes %v): got %x want %x",
-					what, clipChunks(chunks[:ci]), s, off+d, clipChunks(chunks), clip(dst[:k], d), clip(want[off:off+k], d))
-				break
+			if v := judge(c, what, call{s, path, m}, data, off, off+k, dst[:k], want[off:off+k]); v == vFail {
+				break // the object's state is no longer the model's: stop this history
 			}
 			off += k
 		}
